@@ -42,9 +42,9 @@ type (
 )
 
 func (m BadgerManager) ExtractPrefix(input string) (types.Prefix, bool) {
-	tokens := strings.Split(input, ":")
-	if len(tokens) == 2 {
-		return types.Prefix(tokens[0]), true
+	// same rule as the store: the prefix ends at the first colon, the value may contain more of them
+	if splitOffset := strings.Index(input, ":"); splitOffset > -1 {
+		return types.Prefix(input[:splitOffset]), true
 	}
 	return "", false
 }
@@ -62,7 +62,11 @@ func (m BadgerManager) ExpandPrefix(input types.Prefix) (types.URI, error) {
 //	 )
 func (m BadgerManager) ExtractNamespaceURI(input string) (types.URI, string, bool) {
 	if strings.HasPrefix(input, "http") {
-		cutPosition := strings.LastIndex(input, "/") + 1
+		// same rule as the store: a namespace ends at the last '#', or else at the last '/'
+		cutPosition := strings.LastIndex(input, "#") + 1
+		if cutPosition == 0 {
+			cutPosition = strings.LastIndex(input, "/") + 1
+		}
 		return types.URI(input[:cutPosition]), input[cutPosition:], true
 	}
 	return "", "", false
